@@ -28,6 +28,8 @@ pub struct GenOpts {
     pub help_version_actions: bool,
     /// text pool for every descriptive slot (None: short innocuous words)
     pub texts: Option<&'static [&'static str]>,
+    /// multiplier for the probability of each relation kind
+    pub relation_weight: u32,
 }
 
 impl Default for GenOpts {
@@ -48,6 +50,7 @@ impl Default for GenOpts {
             ignore_errors: true,
             help_version_actions: true,
             texts: None,
+            relation_weight: 1,
         }
     }
 }
@@ -493,12 +496,12 @@ fn gen_level(t: &mut Tape<'_>, opts: &GenOpts, depth: usize, name: &str, inh: &I
                     g.args.push(m);
                 }
             }
-            g.required = t.chance(1, 4);
-            g.multiple = t.chance(1, 3);
-            if t.chance(1, 4) {
+            g.required = t.chance(opts.relation_weight, 4);
+            g.multiple = t.chance(opts.relation_weight, 3);
+            if t.chance(opts.relation_weight, 4) {
                 g.requires.push(t.pick(&ids).clone());
             }
-            if t.chance(1, 4) {
+            if t.chance(opts.relation_weight, 4) {
                 g.conflicts_with.push(t.pick(&ids).clone());
             }
             c.groups.push(g);
@@ -517,19 +520,20 @@ fn gen_level(t: &mut Tape<'_>, opts: &GenOpts, depth: usize, name: &str, inh: &I
             if a.action.is_help_or_version() {
                 continue;
             }
-            if t.chance(1, 6) {
+            if t.chance(opts.relation_weight, 6) {
                 a.conflicts_with.push(t.pick(&others).clone());
             }
-            if t.chance(1, 8) {
-                a.overrides_with.push(t.pick(&others).clone());
+            // overrides name arguments only (what overriding a *group* id means is not documented)
+            if t.chance(opts.relation_weight, 8) && !arg_others.is_empty() {
+                a.overrides_with.push(t.pick(&arg_others).clone());
             }
-            if t.chance(1, 10) {
+            if t.chance(opts.relation_weight, 10) {
                 a.overrides_with.push(my_id.clone());
             }
-            if t.chance(1, 6) {
+            if t.chance(opts.relation_weight, 6) {
                 a.requires.push(t.pick(&others).clone());
             }
-            if t.chance(1, 10) {
+            if t.chance(opts.relation_weight, 10) {
                 let p = if t.bool() {
                     Pred::IsPresent
                 } else {
@@ -537,39 +541,44 @@ fn gen_level(t: &mut Tape<'_>, opts: &GenOpts, depth: usize, name: &str, inh: &I
                 };
                 a.requires_ifs.push((p, t.pick(&others).clone()));
             }
-            if t.chance(1, 12) && !a.is_positional() && !a.global {
+            if t.chance(opts.relation_weight, 12) && !a.is_positional() && !a.global {
                 a.exclusive = true;
             }
             if !a.required && !arg_others.is_empty() && !a.global {
-                match t.weighted(&[20, 1, 1, 1, 1, 1]) {
-                    0 => {}
-                    1 => a.required_if_eq_any.push((t.pick(&arg_others).clone(), (*t.pick(VALUES)).to_owned())),
-                    2 => {
-                        for _ in 0..t.range(1, 2) {
-                            a.required_if_eq_all
-                                .push((t.pick(&arg_others).clone(), (*t.pick(VALUES)).to_owned()));
-                        }
-                    }
-                    3 => a.required_unless_present_any.push(t.pick(&others).clone()),
-                    4 => {
-                        for _ in 0..t.range(1, 2) {
-                            a.required_unless_present_all.push(t.pick(&others).clone());
-                        }
-                    }
-                    _ => {
-                        if !a.is_positional() {
-                            a.required = true;
-                        }
+                // several conditional-requirement kinds may sit on one argument
+                let w = opts.relation_weight;
+                if t.chance(w, 20) {
+                    a.required_if_eq_any.push((t.pick(&arg_others).clone(), (*t.pick(VALUES)).to_owned()));
+                }
+                if t.chance(w, 24) {
+                    for _ in 0..t.range(1, 2) {
+                        a.required_if_eq_all
+                            .push((t.pick(&arg_others).clone(), (*t.pick(VALUES)).to_owned()));
                     }
                 }
+                if t.chance(w, 20) {
+                    a.required_unless_present_any.push(t.pick(&others).clone());
+                }
+                if t.chance(w, 24) {
+                    for _ in 0..t.range(1, 2) {
+                        a.required_unless_present_all.push(t.pick(&others).clone());
+                    }
+                }
+                let conditional = !a.required_if_eq_any.is_empty()
+                    || !a.required_if_eq_all.is_empty()
+                    || !a.required_unless_present_any.is_empty()
+                    || !a.required_unless_present_all.is_empty();
+                if !conditional && !a.is_positional() && t.chance(w, 24) {
+                    a.required = true;
+                }
             }
-            if opts.defaults && a.action.takes_values() && !arg_others.is_empty() && t.chance(1, 10) {
+            if opts.defaults && a.action.takes_values() && !arg_others.is_empty() && t.chance(opts.relation_weight, 10) {
                 let p = if t.bool() {
                     Pred::IsPresent
                 } else {
                     Pred::Equals((*t.pick(VALUES)).to_owned())
                 };
-                let v = if t.chance(1, 5) { None } else { Some(good_value(t, &a.parser)) };
+                let v = if t.chance(opts.relation_weight, 5) { None } else { Some(good_value(t, &a.parser)) };
                 a.default_value_ifs.push((t.pick(&arg_others).clone(), p, v));
             }
         }
